@@ -710,3 +710,151 @@ def check_C06(run):
                            note='model and implementation differ; the whole-path oracle agrees with the implementation'), no_input=True)
     run.cov['trusted_base'] = C.GLOBAL_TRUST + ['the regex crate implements its documented semantics (it is also the oracle\'s engine, with \\A(?:p)\\z)',
                                                 'the AST-level model of how the text pre++p++post parses (concatenation binds tighter than |) is validated against the crate by this stream']
+
+
+# ------------------------------------------------------------------ C10
+
+def c10_script(rng, nb, nd):
+    """(items to doer, items to boss) by manipulating the honest streams"""
+    def manip(honest, other):
+        s = list(honest)
+        for _ in range(rng.choice([0, 1, 1, 1, 2])):
+            if not s:
+                s.append('g%d:%d' % (rng.randint(0, 60), rng.randint(1, 10 ** 6))); continue
+            i = rng.randrange(len(s))
+            op = rng.choice(['dup', 'swap', 'drop', 'reflect', 'flip', 'trunc', 'inject', 'replay-later'])
+            if op == 'dup': s.insert(i, s[i])
+            elif op == 'swap' and i + 1 < len(s): s[i], s[i + 1] = s[i + 1], s[i]
+            elif op == 'drop': del s[i]
+            elif op == 'reflect' and other: s.insert(i, rng.choice(other))
+            elif op == 'flip': s[i] = s[i].split('~')[0].split('/')[0] + '~%d' % rng.randint(0, 400) if s[i].startswith('f') else s[i]
+            elif op == 'trunc': s[i] = s[i].split('~')[0].split('/')[0] + '/%d' % rng.randint(0, 30) if s[i].startswith('f') else s[i]
+            elif op == 'inject': s.insert(i, 'g%d:%d' % (rng.randint(0, 60), rng.randint(1, 10 ** 6)))
+            elif op == 'replay-later': s.append(s[i])
+        return s
+    hb = [f'fb{i}' for i in range(nb)]; hd = [f'fd{i}' for i in range(nd)]
+    return manip(hb, hd), manip(hd, hb)
+
+
+def c10_expected(items, sender):
+    """independent of the model: the longest in-order unmodified prefix of the right sender"""
+    j = 0
+    for it in items:
+        if it == f'f{sender}{j}': j += 1
+        else: break
+    return list(range(j))
+
+
+@prop('C10')
+def check_C10(run):
+    import subprocess, socket, shutil, time as _t
+    from . import l3
+    thorough = run.tier == 'thorough'
+    if not prepare(run, need_cli=True):
+        return
+    rng = run.rng
+    run.cov['rule'] = ('two real AsyncEncryptedComms ends over loopback TCP with the harness as the network: per direction a delivered stream obtained from the honest one by '
+                       'dup / swap / drop / reflect / bit-flip / truncate / inject / late replay; oracle = delivered indices are the longest unmodified in-order prefix and no key stream is reused '
+                       '(c_i^c_j != p_i^p_j); plus a real --doer process contacted with frames under a wrong key / raw bytes; non-trivial = at least one manipulation; distinct by request line')
+    cases = []
+    # corpus / systematic: every manipulation at every index of a fixed history
+    for i in range(4):
+        hb = [f'fb{k}' for k in range(4)]; hd = [f'fd{k}' for k in range(3)]
+        for var in ([*hb[:i], hb[i], *hb[i:]], [*hb[:i], *hb[i + 1:]], [*hb[:i], hb[i] + '~13', *hb[i + 1:]], [*hb[:i], hb[i] + '/5', *hb[i + 1:]],
+                    [*hb[:i], 'fd0', *hb[i:]], [*hb[:i], 'g40:7', *hb[i:]], hb + [hb[i]], hb[:i] + hb[i:][::-1]):
+            cases.append((4, 3, var, hd))
+            cases.append((3, 4, [f'fb{k}' for k in range(3)], [v.replace('fb', 'fD').replace('fd', 'fb').replace('fD', 'fd') for v in var]))
+    for _ in range(300 if not thorough else 5000):
+        nb, nd = rng.randint(0, 10), rng.randint(0, 10)
+        td, tb = c10_script(rng, nb, nd)
+        cases.append((nb, nd, td, tb))
+    key = '%032x' % rng.getrandbits(128)
+    hl = [f'mitm {key} {nb} {nd} {len(td)} ' + ' '.join(td) + f' {len(tb)} ' + ' '.join(tb) for nb, nd, td, tb in cases]
+    hl = [' '.join(l.split()) for l in hl]
+    impl = [a for a, _ in C.run_harness(hl, timeout=1800)]
+    def mitems(items):
+        return ' '.join(it if (it.startswith('f') and '~' not in it and '/' not in it) else 'x' for it in items)
+    ml = []
+    for nb, nd, td, tb in cases:
+        ml.append('frames 1 ' + mitems(td)); ml.append('frames 0 ' + mitems(tb))
+    model = C.run_model(ml)
+    oracle_fail, disagree = [], []
+    for k, ((nb, nd, td, tb), ans) in enumerate(zip(cases, impl)):
+        honest = td == [f'fb{i}' for i in range(nb)] and tb == [f'fd{i}' for i in range(nd)]
+        run.case(('mitm', hl[k]), not honest, sample=dict(layer='link', boss_sends=nb, doer_sends=nd, delivered_to_doer=td, delivered_to_boss=tb, impl=ans) if not honest else None)
+        run.count('link:' + ('honest' if honest else 'manipulated')); run.cov['traces_validated_against_impl'] += 1
+        want = 'toDoer=[%s] toBoss=[%s] reuse=0' % (','.join(map(str, c10_expected(td, 'b'))), ','.join(map(str, c10_expected(tb, 'd'))))
+        mwant = 'toDoer=%s toBoss=%s' % (model[2 * k], model[2 * k + 1])
+        if ans != want:
+            oracle_fail.append(dict(layer='link', request_line=hl[k], delivered_to_doer=td, delivered_to_boss=tb, impl=ans, oracle=want, model=mwant))
+        if not ans.startswith(mwant + ' '):
+            disagree.append(dict(layer='link', request_line=hl[k], impl=ans, model=mwant))
+    run.cov['disagreements_checked'] += len(cases)
+
+    def on_broken(failed):
+        if oracle_fail:
+            o = min(oracle_fail, key=lambda o: len(o['request_line']))
+            return dict(found_by='manipulation scripts against the real link', **o)
+        return None
+    C.proofs_step(run, 'C10', on_broken)
+    if oracle_fail and not run.violations:
+        o = min(oracle_fail, key=lambda o: len(o['request_line']))
+        run.violation(dict(kind='oracle-failed-on-implementation', oracle='delivered = unmodified in-order prefix; no key-stream reuse', failing_cases=len(oracle_fail), **o))
+    if disagree and not run.violations:
+        run.violation(dict(kind='correspondence-broken', correspondence='link/recvItems', disagreeing_cases=len(disagree), **disagree[0]), no_input=True)
+
+    # a real --doer process: a peer without the key gets no command executed
+    d = l3.scratch()
+    try:
+        n_doer = 4 if not thorough else 40
+        for trial in range(n_doer):
+            good = trial % 4 == 3          # sanity / non-vacuity: the right key does execute
+            root = os.path.join(d, f't{trial}'); os.makedirs(root)
+            l3.make_tree(root, [('victim', 'F', b'precious', 1_500_000_000_000_000_000), ('sub', 'D')])
+            before = l3.snapshot(root)
+            right = '%032x' % rng.getrandbits(128)
+            used = right if good else '%032x' % rng.getrandbits(128)
+            cmds = [['SR', C.X(root)], ['DF', C.X('victim')], ['CF', C.X('made')], ['MK']]
+            toks = ['mkframes', used, str(len(cmds))] + [x for c in cmds for x in c]
+            wire = bytes.fromhex(C.run_harness([' '.join(toks)])[0][0])
+            if not good and trial % 4 == 1:
+                wire = bytes(rng.getrandbits(8) for _ in range(8)) [:7] + b'\x00' + bytes(rng.getrandbits(8) for _ in range(64))   # raw bytes, plausible length
+                wire = (40).to_bytes(8, 'little') + wire[:40]
+            p = subprocess.Popen([C.CLI_BIN, '--doer'], stdin=subprocess.PIPE, stdout=subprocess.PIPE, stderr=subprocess.PIPE, env=C.ENV)
+            try:
+                line = p.stdout.readline().decode()
+                p.stdin.write((right + '\n').encode()); p.stdin.flush()
+                port = None
+                while True:
+                    line = p.stdout.readline().decode()
+                    if not line: break
+                    if 'port ' in line:
+                        port = int(line.strip().rsplit(' ', 1)[1]); break
+                s = socket.create_connection(('127.0.0.1', port), timeout=10)
+                s.sendall(wire)
+                s.settimeout(5)
+                try:
+                    got = s.recv(65536)
+                except Exception:
+                    got = b''
+                s.close()
+                p.stdin.close()
+                try:
+                    rc = p.wait(timeout=20)
+                except subprocess.TimeoutExpired:
+                    rc = 'timeout'; p.kill()
+            finally:
+                if p.poll() is None:
+                    p.kill()
+            after = l3.snapshot(root)
+            run.case(('doer-process', trial, good), True, sample=dict(layer='L4', peer_holds_key=good, tree_changed=before != after, doer_exit=rc))
+            run.count('doer-process:' + ('right-key' if good else 'wrong-key'))
+            if not good and (before != after or rc == 'timeout'):
+                run.violation(dict(kind='oracle-failed-on-implementation', oracle='a doer performs no command for a peer that does not hold the key, and exits', layer='L4',
+                                   before={k.decode(): v for k, v in before.items()}, after={k.decode(): v for k, v in after.items()}, doer_exit=rc))
+            if good and before == after:
+                run.cov.setdefault('notes', []).append('sanity: frames under the right key did not execute (harness problem?)')
+    finally:
+        shutil.rmtree(d, ignore_errors=True)
+    run.cov['trusted_base'] = C.GLOBAL_TRUST + ['AES-128-GCM is an ideal AEAD (correctness, ciphertext integrity, nonce binding): a computational assumption, stated as the laws of the AEAD parameter (a toy instance shows they are satisfiable)',
+                                                'OsRng key freshness; TCP delivers bytes in order per connection']
